@@ -2520,24 +2520,15 @@ where
             return keys;
         }
 
-        let mut current_key = Vec::new();
-
-        for &byte in label_data.iter() {
-            if byte == 0u8 {
-                // Found separator, this completes a key
-                if !current_key.is_empty() {
-                    keys.push(current_key.clone());
-                    current_key.clear();
-                }
-            } else {
-                // Add byte to current key
-                current_key.push(byte);
+        // Same record format as insert_louds / contains_louds_internal: [len_byte][key_bytes...]
+        let mut pos = 0;
+        while pos < label_data.len() {
+            let stored_len = label_data[pos] as usize;
+            if pos + 1 + stored_len > label_data.len() {
+                break; // truncated record
             }
-        }
-
-        // Handle last key if there's no trailing separator
-        if !current_key.is_empty() {
-            keys.push(current_key);
+            keys.push(label_data.as_slice()[pos + 1..pos + 1 + stored_len].to_vec());
+            pos += 1 + stored_len;
         }
 
         // Remove duplicates and sort
